@@ -8,6 +8,7 @@ package main
 import (
 	"bufio"
 	"bytes"
+	crand "crypto/rand"
 	"errors"
 	"fmt"
 	"io"
@@ -44,6 +45,7 @@ type c19Server struct {
 	stop    chan struct{}
 	done    chan struct{}
 	exited  chan struct{} // closed when the process has exited (for any reason)
+	home    string        // nonce-carrying HomeRedirect identifying this process
 	once    sync.Once
 }
 
@@ -97,6 +99,13 @@ func c19PrivateBinary(t c19TB, scratch string) string {
 // verdict: the wait is long, and failure to come up is inconclusive.
 func c19StartSkylight(t *testing.T, scratch string, cfg *Config) *c19Server {
 	bin := c19PrivateBinary(t, scratch)
+	// The probed port can be taken by somebody else's server before ours binds
+	// it (many harness processes probe at the same instant), so the readiness
+	// check must recognise OUR process: it carries a nonce in HomeRedirect.
+	var nb [12]byte
+	crand.Read(nb[:])
+	home := fmt.Sprintf("https://home.verif.test/%x-%d", nb, os.Getpid())
+	cfg.HomeRedirect = home
 	var lastErr string
 	for attempt := 0; attempt < 8; attempt++ {
 		ln, err := net.Listen("tcp", "127.0.0.1:0")
@@ -160,15 +169,16 @@ func c19StartSkylight(t *testing.T, scratch string, cfg *Config) *c19Server {
 		ready := false
 		for time.Now().Before(deadline) && s.Alive() {
 			c := &c19Conn{addr: addr}
-			resp, err := c.roundTrip([]byte("GET /health HTTP/1.1\r\nHost: ready.verif.test\r\nUser-Agent: verif (verif@verif.test)\r\nConnection: close\r\n\r\n"), "GET", 20*time.Second)
+			resp, err := c.roundTrip([]byte("GET / HTTP/1.1\r\nHost: ready.verif.test\r\nUser-Agent: verif (verif@verif.test)\r\nConnection: close\r\n\r\n"), "GET", 20*time.Second)
 			c.close()
-			if err == nil && resp != nil {
+			if err == nil && resp != nil && resp.Status == 302 && resp.Header.Get("Location") == home {
 				ready = true
 				break
 			}
 			time.Sleep(50 * time.Millisecond)
 		}
-		if ready {
+		if ready && s.Alive() {
+			s.home = home
 			t.Cleanup(s.Stop)
 			return s
 		}
@@ -249,6 +259,9 @@ func c19Do(t c19TB, s *c19Server, c *c19Conn, raw []byte, method string) *c19Res
 	for try := 0; try < 6; try++ {
 		resp, err := c.roundTrip(raw, method, 90*time.Second)
 		if err == nil {
+			if !s.Alive() {
+				c19Inconclusive(t, "skylight is no longer running (answer to %q discarded); stderr tail:\n%s", c19Clip(raw), s.LogTail())
+			}
 			return resp
 		}
 		last = err
